@@ -145,9 +145,12 @@ def run_config(ctx, lw, rng, cfg=None):
                               mechanism="seed_not_reproducible", monitor="seed reproducibility")
         elif method == "n_outputs":
             ctx.bucket("n_outputs_sampler")
-            det2 = emu.Detector(efficiency=1, p_dark=0, photon_counting=pc)
+            # (dark counts are the documented exception of this method; the detector's efficiency is part of the model)
+            det2 = emu.Detector(efficiency=eta, p_dark=0, photon_counting=pc)
             smp2 = emu.Sampler(c, State(occ), detector=det2)
-            ref = detref.accepted_distribution(base, h["output"], 1.0, 0.0, pc, pred, min_det)
+            if eta < 1:
+                ctx.bucket("n_outputs_with_inefficient_detector")
+            ref = detref.accepted_distribution(base, h["output"], eta, 0.0, pc, pred, min_det)
             tot = sum(ref.values())
             try:
                 r1 = smp2.sample_N_outputs(n, ps_obj, min_det, seed)
